@@ -459,6 +459,12 @@ class Check:
 		self.checker_cmds.append(f'coqc -Q . Symv Props/{props_file}')
 		text = (PROPS / props_file).read_text(encoding='utf8')
 		names = re.findall(r'^\s*(?:Theorem|Lemma|Example|Corollary)\s+([A-Za-z0-9_\']+)', text, re.M)
+		from harness import coq_lint
+		declared = [f'{path.relative_to(COQ)}:{number}: {what}' for path in sorted(COQ.rglob('*.v')) if 'Cases' not in path.parts
+			for number, what in coq_lint.scan(path)]
+		self.extra['forbidden_declarations'] = declared
+		if declared:
+			self.obligation('no Axiom / Parameter / Admitted / assumption outside a section / switched-off kernel check in coq/', False, '\n'.join(declared[:20]))
 		if ok:
 			for name in names:
 				self.obligation(name, True)
